@@ -262,18 +262,45 @@ theorem exec_ok_implies_covered (env : Env) (st : St) (feelog : Receipt) (tx : T
     exact (allow_iff_spec _ _ _ _ _ _).1 (hall p hp)
 
 open C11 in
-/-- local part: when the transaction of an ExecLocalSameTime driver succeeds, every local KV its
-ExecLocal produced carries the executor's local prefix (of the transaction's executor name or of the
-driver's name). -/
+/-- **local_ok_prefix** — the local clause for *every* driver path that goes through `execLocalTx`
+(`execLocalSameTime` inside `execTxOne`, and `procExecAddBlock → execLocalTx` when a block is
+connected): if `execLocalTx` accepts the local KVs `decl` the driver's ExecLocal returned from state
+`st`, each of them carries the local prefix of the transaction's executor name or of its driver name.
+(Not modelled: `procExecDelBlock → checkPrefix` on the KVs of ExecDelLocal — the same `isAllowLocalKey`
+predicate, characterised by `localkey_real_iff`, applied in a loop that panics on the first mismatch.) -/
+theorem local_ok_prefix (st : St) (tx : Tx) (obs : List Obs) (st' : St) (obs' : List Obs)
+    (h : execLocalTx st tx obs = .ok st' obs') :
+    ∃ decl, (runLocalOps tx.localOps st [] obs).2.1 = .ok decl ∧
+      ∀ kv ∈ decl, LocalSpec tx.execer kv.1 ∨ LocalSpec (getRealExecName tx.execer) kv.1 := by
+  obtain ⟨decl, hd, hk⟩ := execLocalTx_ok_keys st tx obs st' obs' h
+  exact ⟨decl, hd, fun kv hkv => (localkey_real_iff _ _).1 (hk kv hkv)⟩
+
+open C11 in
+/-- the same inside block execution: when the transaction of an ExecLocalSameTime driver succeeds, the
+local KVs its ExecLocal produced **from the state `Exec` left** (`execPhase env st.startTx tx`) carry
+the executor's local prefix. -/
 theorem exec_ok_local_prefix (env : Env) (st : St) (feelog : Receipt) (tx : Tx)
     (hs : isExecLocalSameTime env tx.execer = true)
     (r : Receipt) (st' : St) (obs : List Obs) (h : execTxOne env st feelog tx = .ok r st' obs) :
-    ∃ stE obsE decl, (runLocalOps tx.localOps stE [] obsE).2.1 = .ok decl ∧
+    ∃ decl, (runLocalOps tx.localOps (execPhase env st.startTx tx).1 [] (execPhase env st.startTx tx).2.2).2.1 = .ok decl ∧
       ∀ kv ∈ decl, LocalSpec tx.execer kv.1 ∨ LocalSpec (getRealExecName tx.execer) kv.1 := by
-  obtain ⟨stE, kv, obsE, _, _, _, _, hl⟩ := execTxOne_ok_shape env st feelog tx r st' obs h
+  obtain ⟨stE, kv, obsE, hE, _, _, _, hl⟩ := execTxOne_ok_shape env st feelog tx r st' obs h
   obtain ⟨stL, obsL, hlr⟩ := hl hs
-  obtain ⟨decl, hd, hk⟩ := execLocalTx_ok_keys stE tx obsE stL obsL hlr
-  exact ⟨stE, obsE, decl, hd, fun kv hkv => (localkey_real_iff _ _).1 (hk kv hkv)⟩
+  rw [hE]
+  exact local_ok_prefix stE tx obsE stL obsL hlr
+
+open C11 in
+/-- non-vacuity of `exec_ok_implies_covered`: a vfa transaction writing its own key inside a db
+transaction succeeds, with a non-empty `stateWrites`. -/
+example :
+    let env : Env := { cfg := { isPara := false, title := [], forkExecKey := true },
+                       allowUser := synthAllowUser, registry := fullRegistry }
+    let tx : Tx := { acctKey := [1], fee := 1, execer := [118, 102, 97],
+                     execOps := [.setS [109, 97, 118, 108, 45, 118, 102, 97, 45, 107] [9]], localOps := [] }
+    let st : St := (initSt [([1], .acct 10)] []).begin env
+    (∃ d, loadDriver env tx.execer = some d) ∧ st.sdb.intx = true ∧ stateWrites tx.execOps ≠ [] ∧
+      ∃ r st' obs, execTxOne env st emptyPack tx = .ok r st' obs := by
+  refine ⟨⟨_, rfl⟩, rfl, by decide, _, _, _, rfl⟩
 
 /-- non-vacuity of `allow_iff_spec` / `exec_ok_implies_covered`: a deposit-area key is in the grammar. -/
 example : AllowedSpec { isPara := false, title := [], forkExecKey := true } (fun _ => [65]) (fun _ _ _ => false)
